@@ -528,6 +528,8 @@ def cfg_derive_word(G: CFG, w: str, derivation_type: str = 'any') -> DerivationT
 
     def find_rule(rules, Xpm, Xmq):
         for BC in rules:
+            if len(BC) != 2:
+                continue
             B, C = BC
             if B in Xpm and C in Xmq:
                 return B, C
